@@ -104,16 +104,34 @@ def job(isa, names, wxyz=False):
             nm = 'c03.%s.%s' % (tag, fn)
             b = 'all argument values in the documented domain; pure/packed vs intrinsics/aligned at %s' % ' '.join(ISA[isa])
             if cls == 'ident':
-                S.diff_fn(ua, ub, fn, pre, name=nm, timeout=S.cap(40, 120), label_a='pure', label_b=tag, bounds=b, known=KNOWN.get(fn, []), solver='portfolio' if fn.startswith('idiv') else 'z3')
+                S.diff_fn(ua, ub, fn, pre, name=nm, timeout=S.cap(40, 120), label_a='pure', label_b=tag, bounds=b, known=known_for(isa, fn), solver='portfolio' if fn.startswith('idiv') else 'z3')
             else:
                 left = S.diff_fn(ua, ub, fn, pre, name=nm, label_a='pure', label_b=tag, bounds=b + ' [bit-identical terms]', syntactic_only=True)
                 if left:       # the two expression DAGs differ: compare them in the rounding-erased semantics
-                    S.diff_fn(ua, ub, fn, pre, mode='erase', name=nm + '.real', timeout=S.cap(40, 120), label_a='pure', label_b=tag, bounds=b + ' [rounding-erased equality]', known=KNOWN.get(fn, []))
+                    n0 = len(S.inconclusive)
+                    S.diff_fn(ua, ub, fn, pre, mode='erase', name=nm + '.real', timeout=S.cap(40, 120), label_a='pure', label_b=tag, bounds=b + ' [rounding-erased equality]')
+                    ne = [x for x in S.inconclusive[n0:] if 'not encoded' in x]
+                    if ne:      # the SIMD code relies on rounding itself (magic-number tricks): rounding erasure is meaningless there, compare bit-precisely instead
+                        del S.inconclusive[n0:]
+                        S.diff_fn(ua, ub, fn, pre, name=nm + '.bits', timeout=S.cap(60, 180), label_a='pure', label_b=tag, bounds=b + ' [bit-precise; rounding erasure not applicable]', known=known_for(isa, fn))
                     if getattr(S, 'last_approx_ufs', None):
                         S.rec(name=nm + '.no-approx', kind='structure', functions=[fn], bounds=b, solver='term DAG inspection', result='present', status='approximation-intrinsic', mandatory=False,
                               note='hardware approximation %s reachable from a non-lowp result' % sorted(S.last_approx_ufs))
     return run
-KNOWN = {}
+def known_for(isa, fn):
+    k = []
+    if fn == 'abs4_f': k.append('KF-C03-abs-negative-zero')
+    if fn == 'round4_f': k.append('KF-C03-round-ties')
+    if isa in ('sse2', 'sse3', 'ssse3') and re.match(r'(round|floor|ceil|fract|mod)4_f', fn): k.append('KF-C03-sse2-rounding-fallback')
+    return k
+def _round_tie(res, i):
+    xf = fpof(res.ins[0][i])
+    return z3.fpToIEEEBV(z3.fpRoundToIntegral(z3.RNA(), xf)) != z3.fpToIEEEBV(z3.fpRoundToIntegral(z3.RNE(), xf))
+def _sse2_region(res, i):
+    xf = fpof(res.ins[0][i])
+    if res.fn.name.startswith('mod'): xf = z3.fpDiv(RNE, xf, fpof(res.ins[1][i]))
+    return z3.Or(z3.fpGEQ(z3.fpAbs(xf), FPV(2.0 ** 23)), z3.And(z3.fpLEQ(xf, FPV(0.0)), z3.fpGT(xf, FPV(-1.0))), z3.fpIsNaN(xf))
+REGIONS = {'round_tie': _round_tie, 'sse2_round_region': _sse2_region}
 def jobs(tier):
     q = tier == 'quick'; J = []
     for isa in (QUICK_ISA if q else list(ISA)):
